@@ -82,6 +82,8 @@ def run(ctx):
                       "appears exactly once with its own printed value; an auto-generated name and unchanged parameters are left out", floor=1)
     ctx.rule("R20.d", "the recursion guard of the object printer tells a recursive call by (object identity, thread identity), both obtained inside the per-call wrapper of _recursive_repr "
                       "(a thread identity captured when the decorator is applied makes concurrent printing of a shared nested object emit `...`)", floor=1)
+    ctx.rule("R20.n", "the value the printer reads is the value attribute access gives: no reader of the per-instance value store conflates an explicit None with 'not set' "
+                      "(values() would report the class default for a parameter set to None, and the printed text rebuilds the default) -- shared with R15.g", floor=1)
     ctx.not_decided += ["that repr() of the leaf values (strings needing escapes, negative numbers) evaluates back to an equal value (Python's repr, not this code base)",
                         "constructor signatures other than (self, <positional>, <keyword>=default, **params): *args, keyword-only parameters, non-parameter arguments (printed as unknown_value)",
                         "values(onlychanged=True), which decides what counts as changed (C13 decides that values() agrees with attribute access)",
@@ -90,6 +92,9 @@ def run(ctx):
     float_model(ctx, "R20.b")
     object_printer_model(ctx, "R20.c")
     recursion_guard_rule(ctx, "R20.d")
+    from checks.c15 import value_store_none_is_a_value
+    value_store_none_is_a_value(ctx, "R20.n", "pprint / script_repr then leave the keyword out or print the default: the rebuilt object holds the default instead of None",
+                                "Number(default=1.5, allow_None=True); obj.x = None; eval(obj.param.pprint()).x -> 1.5")
 
 
 def float_model(ctx, rule):
